@@ -367,9 +367,12 @@ def check_fit_guards(ctx, replay, out):
         return
     st = replay["real"]
     if g.get("det") and g.get("wf") and not g.get("partial"):
-        ctx.count("fit guards: no-raise guard holds")
+        # a heuristic class only (finding matcher): that it excludes every raise is false — the stale `open_start` of
+        # `place_nodes` raises in `find_fittable` on slices of this class (Props/C11.lean, third raise site).  The proven
+        # relation "hypotheses of fit_no_raise true => the real code returned" is checked by `check_fit_raise` (op fitRaise).
+        ctx.count("fit guards: finding class false, slice well-formed")
         if st not in ("ok", "hang"):
-            ctx.mismatch("fitGuards:guard-true-but-raises", replay, st, g)
+            ctx.count("fit guards: finding class false, slice well-formed, but the real code raised")
     if g.get("det") and g.get("term"):
         ctx.count("fit guards: termination guard holds")
         if st == "hang":
